@@ -33,7 +33,7 @@ fn incompressible(r: &mut Rng, n: usize) -> Vec<u8> {
 
 /// the strata of the task: empty / tiny / incompressible (stored chunks) / highly compressible beyond the
 /// uncompressed chunk limit / mixed / `chunk_size` / preset dictionary
-fn gen_case(r: &mut Rng, i: u64, big: bool) -> (W2Input, LzOpts, Option<u64>) {
+fn gen_case(r: &mut Rng, i: u64, big: bool, check: bool) -> (W2Input, LzOpts, Option<u64>) {
     let bt4 = i % 3 == 2;
     let dict: u32 = *r.pick(&[4096u32, 4096, 5000, 8192, 65536, 1 << 20]);
     let nice: u32 = *r.pick(&[8u32, 16, 32, 64, 273]);
@@ -54,26 +54,29 @@ fn gen_case(r: &mut Rng, i: u64, big: bool) -> (W2Input, LzOpts, Option<u64>) {
         }
         2 => {
             // incompressible: every chunk is stored; 1 .. several chunks
-            let n = if big { r.range(60_000, 400_000) } else { r.range(1000, 140_000) } as usize;
+            let n = if big { r.range(60_000, 400_000) } else if check { r.range(1000, 80_000) } else { r.range(1000, 140_000) } as usize;
             W2Input::plain("random", incompressible(r, n))
         }
         3 => {
             // highly compressible, beyond LZMA2_UNCOMPRESSED_LIMIT (2 MiB - 273)
             let unit_len = *r.pick(&[1usize, 1, 2, 7, 300, 4096]);
             let unit = r.bytes(unit_len);
-            let total = if big { r.range(2_090_000, 4_400_000) } else { r.range(2_090_000, 2_300_000) } as usize;
+            // (inside `./check` only every fourth of these cases crosses the 2 MiB limit)
+            let total = if big { r.range(2_090_000, 4_400_000) } else if check && i % 80 != 3 { r.range(70_000, 300_000) } else { r.range(2_090_000, 2_300_000) } as usize;
             let tail_len = r.range(0, 2000) as usize;
             W2Input { rep: total / unit_len, unit, tail: r.bytes(tail_len), kind: "compressible-2m" }
         }
         4 => {
             // mixed: compressible and incompressible stretches alternate (stored and LZMA chunks alternate,
             // state resets, read-ahead at a stored chunk)
-            let n = if big { r.range(100_000, 700_000) } else { r.range(20_000, 150_000) } as usize;
+            let n = if big { r.range(100_000, 700_000) } else if check { r.range(20_000, 90_000) } else { r.range(20_000, 150_000) } as usize;
             W2Input::plain("mixed", gen_data(r, "mixed", n))
         }
         5 | 6 => {
             // chunk_size: independent chunks (clamped to the dictionary size)
-            let n = if big { r.range(300_000, 1_500_000) } else { r.range(100_000, 420_000) } as usize;
+            // (one `write` call of less than the window - 330 KiB for a 4 KiB dictionary - never restarts; the
+            // partitions with small calls do)
+            let n = if big { r.range(300_000, 1_500_000) } else if check && i % 80 != 5 { r.range(20_000, 70_000) } else { r.range(100_000, 420_000) } as usize;
             lz.dict = *r.pick(&[4096u32, 4096, 8192, 65536]);
             chunk = Some(*r.pick(&[1u64, 4096, 5000, 70_000, 100_000, 300_000]));
             let k = *r.pick(&["text", "mixed", "random", "lowent", "periodic"]);
@@ -81,7 +84,17 @@ fn gen_case(r: &mut Rng, i: u64, big: bool) -> (W2Input, LzOpts, Option<u64>) {
         }
         7 | 8 => {
             // preset dictionary: shorter than / equal to / longer than the dictionary, data repeating it
-            let plen = match r.below(4) {
+            if r.chance(1, 3) {
+                // dictionary size that is not a multiple of 16 (the reader rounds its buffer up) and a preset
+                // dictionary around that size: writer and reader must agree on the position bits
+                lz.dict = *r.pick(&[4097u32, 5000, 4104, 4111, 65537]);
+                let (a, b, c) = *r.pick(&[(0u32, 0u32, 4u32), (0, 4, 0), (0, 4, 4), (4, 0, 4), (3, 0, 2)]);
+                lz.lc = a;
+                lz.lp = b;
+                lz.pb = c;
+            }
+            let plen = match r.below(5) {
+                4 => lz.dict as usize + r.range(1, 40) as usize,
                 0 => r.range(1, 20) as usize,
                 1 => r.range(20, 4000) as usize,
                 2 => lz.dict as usize,
@@ -110,7 +123,7 @@ fn gen_case(r: &mut Rng, i: u64, big: bool) -> (W2Input, LzOpts, Option<u64>) {
             W2Input::plain("preset", data)
         }
         _ => {
-            let n = if big { r.range(20_000, 400_000) } else { r.range(3000, 90_000) } as usize;
+            let n = if big { r.range(20_000, 400_000) } else if check { r.range(3000, 50_000) } else { r.range(3000, 90_000) } as usize;
             let k = *r.pick(&["text", "periodic", "runs", "lowent", "code"]);
             W2Input::plain("medium", gen_data(r, k, n))
         }
@@ -139,11 +152,12 @@ pub fn request(lz: &LzOpts, chunk: Option<u64>, inp: &W2Input) -> String {
     s
 }
 
-/// `n` cases; `big` selects the large sizes (own validation / thorough tier)
-pub fn run_lzma2w(rep: &mut Report, rng: &mut Rng, n: u64, big: bool) {
+/// `n` cases; `big` selects the large sizes (own validation / thorough tier), `check` the bounded ones of the
+/// quick tier of `./check C01`
+pub fn run_lzma2w(rep: &mut Report, rng: &mut Rng, n: u64, big: bool, check: bool) {
     for i in 0..n {
         let mut r = rng.fork();
-        let (inp, lz, chunk) = gen_case(&mut r, i, big);
+        let (inp, lz, chunk) = gen_case(&mut r, i, big, check);
         let data = inp.bytes();
         let detail = || json!({"stratum": "lzma2w", "kind": inp.kind, "opts": lz.json(), "chunk_size": chunk, "data_len": data.len(), "data_fnv": fnv(&data), "data_hex": if data.len() <= 300 { hex(&data) } else { String::new() }});
         rep.count(&format!("lzma2w.{}", inp.kind));
@@ -167,7 +181,7 @@ pub fn run_lzma2w(rep: &mut Report, rng: &mut Rng, n: u64, big: bool) {
         }
         // other partitions of the same data
         if let Outcome::Ok(c) = &one {
-            for _ in 0..2 {
+            for k in 0..2 {
                 let (style, parts) = gen_partition(&mut r, data.len());
                 match lzma2_compress(&data, &lz, chunk, &parts, 0) {
                     Outcome::Ok(c2) => {
@@ -177,6 +191,11 @@ pub fn run_lzma2w(rep: &mut Report, rng: &mut Rng, n: u64, big: bool) {
                             }
                         } else {
                             rep.count(if &c2 == c { "lzma2w.chunked-partition-same" } else { "lzma2w.chunked-partition-differs" });
+                            // with chunk_size the model takes the sizes of the write calls into account
+                            let ps = parts.iter().map(|x| x.to_string()).collect::<Vec<_>>().join(",");
+                            if !(check && k > 0) {
+                            rep.model(format!("{} parts={ps}", request(&lz, chunk, &inp)), format!("ok {} {}", c2.len(), fnv(&c2)));
+                            }
                             match lzma2_decompress(&c2, lz.dict, lz.preset.as_deref(), &[65536], data.len() + 16) {
                                 Outcome::Ok((out, _)) if out == data => {}
                                 other => rep.fail("lzma2w-roundtrip-partition", &format!("chunk_size + partition {style}: {}", other.class()), detail()),
